@@ -325,3 +325,4 @@ Proof.
   unfold ev_ok in Hin. rewrite Hs in Hin. destruct Hin as [A [B C]]. repeat split; auto.
   intros Hc. rewrite C in Hc. destruct (now <? dl) eqn:E; [apply N.ltb_lt; exact E | discriminate Hc].
 Qed.
+
